@@ -20,7 +20,7 @@ ENGINES = {
         'bin': 'verif-e1',
         'unwind': 24,
         'hash_paths': [os.path.join(REPO, 'typify-impl'), os.path.join(REPO, 'Cargo.toml'), os.path.join(REPO, 'Cargo.lock'),
-                       os.path.join(VERIF, 'kani', 'e1'), os.path.join(VERIF, 'lib')],
+                       os.path.join(VERIF, 'kani', 'e1')],
     },
 }
 
